@@ -2,6 +2,8 @@ SPECIFICATION Spec
 CONSTANTS
   Deviations <- RealDevs
   Menu <- MenuAll
+  VarMenu <- VarQuick
+  VarVersions <- VarVersionsQuick
   MultiMenu <- MultiQuick
   TripleMenu <- TripleQuick
   MaxItems = 2
